@@ -137,7 +137,8 @@ def small_cfg(fields, customs, render=None, rename=None, keys=None, nfmaps=None)
     if keys:
         y += ['  key:'] + ['    - %s' % k for k in keys]
     if rename:
-        y += ['  rename:'] + ['    %s: "%s"' % (a, b) for a, b in rename.items()]
+        import json as _json
+        y += ['  rename:'] + ['    %s: %s' % (a, _json.dumps(b)) for a, b in rename.items()]
     if render:
         y += ['  render:'] + ['    %s: %s' % (a, b) for a, b in render.items()]
     toks = fmt_tokens(fields, rename, render, keys) + ['cfg']
@@ -178,6 +179,7 @@ def edge_configs():
         'virtual': small_cfg(['icmp_name', 'proto', 'icmp_type'], C),
         'render-go-key': small_cfg(['src_addr'], C, render={'SrcAddr': 'none'}),
         'empty-rename': small_cfg(['bytes', 'packets'], C, rename={'bytes': ''}),
+        'odd-renames': small_cfg(['bytes', 'packets', 'proto', 'cust0'], C, rename={'bytes': 'by"tes', 'packets': 'pa\\ck\nets', 'proto': '<p&r>\u00fc', 'cust0': 'c u s t'}, nfmaps=[(1, 'cust0')]),
         'dup-index': small_cfg(['a', 'b'], [('a', 1001, 'varint', False), ('b', 1001, 'varint', False)], nfmaps=[(1, 'a'), (2, 'b')]),
         'no-fields': small_cfg([], C, nfmaps=[(1, 'cust0')]),
         'render-custom-unlisted': small_cfg(['bytes'], C, render={'cust0': 'ip'}, nfmaps=[(1, 'cust0')]),
